@@ -1,6 +1,7 @@
-(** C09 - property theorems (statements only; proofs are in C09/Proofs.v and C09/Cost.v). *)
-From Coq Require Import List NArith Reals.
-From LinfaVerif Require Import Common.Num Common.NdSum C09.Model C09.Proofs C09.Cost.
+(** C09 - property theorems (statements only; proofs are in C09/Proofs.v, C09/Cost.v, C09/Fixed.v
+    and C09/InitProofs.v). *)
+From Coq Require Import List NArith Reals Floats.
+From LinfaVerif Require Import Common.Num Common.NdSum C09.Model C09.Proofs C09.Cost C09.Fixed C09.InitProofs.
 Import ListNotations.
 Local Open Scope R_scope.
 
@@ -121,3 +122,124 @@ Example centroids_in_bbox_instance :
 Proof.
   destruct ex_hypotheses as [_ [_ [_ [_ [H1 H2]]]]]. exact (conj H1 (conj H2 ex_step)).
 Qed.
+
+(** ---- initialisers ---- *)
+
+(** `KMeansInit::Random` returns rows of the data (the indices come from `rand::seq::index::sample`,
+    which only yields indices below the number of observations) *)
+Theorem random_centroids_are_data_rows : forall F (X : list (list F)) (idx : list nat) (c : list F),
+  Forall (fun i => (i < length X)%nat) idx -> In c (random_init X idx) -> In c X.
+Proof. exact (@random_init_rows). Qed.
+
+(** k-means++ (init.rs on top of rand's WeightedIndex / UniformFloat, as a function of the generator's
+    raw 64-bit words) returns exactly k centroids and every one of them is a row of the data - in every
+    arithmetic, for every metric, whatever the generator produces, including the fallback to
+    observation 0 when all remaining distances are zero *)
+Theorem plusplus_centroids_are_data_rows : forall F (o : NumOps F) (fmt : sample_fmt F) (m : metric)
+    (X : list (list F)) (k : nat) (words : list N),
+  X <> [] -> (1 <= k)%nat ->
+  length (fst (plusplus o fmt m X k words)) = k /\
+  forall c, In c (fst (plusplus o fmt m X k words)) -> In c X.
+Proof.
+  intros F o fmt m X k words HX Hk.
+  exact (conj (plusplus_length o fmt m X k words Hk) (fun c => plusplus_rows o fmt m X k words c HX)).
+Qed.
+
+(** ... the same for the initialisations of all restarts of one fit (one generator stream) *)
+Theorem plusplus_inits_are_data_rows : forall F (o : NumOps F) (fmt : sample_fmt F) (m : metric)
+    (X : list (list F)) (k runs : nat) (words : list N),
+  X <> [] -> (1 <= k)%nat ->
+  length (plusplus_inits o fmt m X k runs words) = runs /\
+  forall i, In i (plusplus_inits o fmt m X k runs words) ->
+    length i = k /\ forall c, In c i -> In c X.
+Proof.
+  intros F o fmt m X k runs words HX Hk.
+  exact (conj (plusplus_inits_length o fmt m X k runs words)
+              (plusplus_inits_spec o fmt m X k runs HX Hk words)).
+Qed.
+
+(** the executable model at binary64: three equal observations, k = 2: the second pick is the fallback
+    (all distances zero), it is observation 0 and consumes no generator word *)
+Example plusplus_centroids_instance :
+  let X := [[1%float]; [1%float]; [1%float]] in
+  let fmt := {| sf_mant := 52%N; sf_pred := PrimFloat.next_down |} in
+  X <> [] /\ length (fst (plusplus B64_ops fmt L2 X 2 [18446744073709551615%N; 7%N])) = 2%nat /\
+  snd (plusplus B64_ops fmt L2 X 2 [18446744073709551615%N; 7%N]) = [7%N].
+Proof. exact plusplus_instance. Qed.
+
+(** a fit whose initial centroids are rows of the data (Random, k-means++, or Precomputed that way)
+    returns centroids inside the bounding box of the data alone *)
+Theorem fit_from_data_rows_in_bbox : forall (m : metric) (tol : R) (fuel k : nat)
+    (inits : list (list (list R))) (X : list (list R)) (d : nat) (lo hi : list R) (f : fitted),
+  X <> [] -> Forall (fun x => length x = d) X ->
+  (forall i c, In i inits -> In c i -> In c X) ->
+  (forall x t, In x X -> (t < d)%nat -> nth t lo 0 <= nth t x 0 <= nth t hi 0) ->
+  fit R_ops m tol fuel k inits X = Some f ->
+  forall c t, In c (f_centroids f) -> (t < d)%nat -> nth t lo 0 <= nth t c 0 <= nth t hi 0.
+Proof. exact fit_data_rows_in_bbox_R. Qed.
+
+(** in particular a k-means++ fit, for every generator stream and number of restarts *)
+Theorem plusplus_fit_in_bbox : forall (fmt : sample_fmt R) (m : metric) (tol : R) (fuel k runs : nat)
+    (words : list N) (X : list (list R)) (d : nat) (lo hi : list R) (f : fitted),
+  X <> [] -> (1 <= k)%nat -> Forall (fun x => length x = d) X ->
+  (forall x t, In x X -> (t < d)%nat -> nth t lo 0 <= nth t x 0 <= nth t hi 0) ->
+  fit R_ops m tol fuel k (plusplus_inits R_ops fmt m X k runs words) X = Some f ->
+  forall c t, In c (f_centroids f) -> (t < d)%nat -> nth t lo 0 <= nth t c 0 <= nth t hi 0.
+Proof.
+  intros fmt m tol fuel k runs words X d lo hi f HX Hk Hd HB Hf.
+  apply (fit_data_rows_in_bbox_R m tol fuel k (plusplus_inits R_ops fmt m X k runs words) X d lo hi f HX Hd);
+    [| exact HB | exact Hf].
+  intros i c Hi Hc. exact (proj2 (plusplus_inits_spec R_ops fmt m X k runs HX Hk words i Hi) c Hc).
+Qed.
+
+(** ---- fixed points and the reported inertia ---- *)
+
+(** what a fixed point of the m_k-means step is (any of the three metrics): `step cs X = cs` holds
+    exactly when, for every centroid j, (size of its cluster) * c_j = (sum of its cluster), coordinate
+    by coordinate - i.e. every centroid that owns at least one observation is the exact mean of its
+    cluster (the "+ old centroid, / (count + 1)" of m_k-means cancels at a fixed point, so these are
+    the fixed points of the classical Lloyd step too), and a centroid with an empty cluster is
+    unconstrained. [cluster m j cs X] = the observations whose closest centroid is j. *)
+Theorem lloyd_fixed_point_characterisation : forall (m : metric) (cs X : list (list R)) (d : nat),
+  X <> [] -> Forall (fun x => length x = d) X -> Forall (fun c => length c = d) cs ->
+  (step R_ops m cs X = cs <->
+   forall j t, (j < length cs)%nat -> (t < d)%nat ->
+     INR (length (cluster m j cs X)) * nth t (nth j cs []) 0 =
+     seq_sum R_ops (map (fun x => nth t x 0) (cluster m j cs X))).
+Proof.
+  intros m cs X d H1 H2 H3. rewrite (step_fixed_iff m cs X d H1 H2 H3).
+  split; intros H j t Hj Ht; [rewrite seq_sum_rsum | rewrite <- seq_sum_rsum]; apply H; assumption.
+Qed.
+
+(** at a fixed point (L2) the cost cannot be lowered by moving any single centroid j to any position c'
+    while the observations stay in their clusters - in particular not by the m_k-means move to
+    (sum of the cluster + c_j) / (count + 1), which is a no-op there.  [fixed_assign_cost cs cs' X] is
+    the sum over the observations x of the squared distance between x and cs'[closest index of x
+    among cs]; for cs' = cs it is the k-means cost. *)
+Theorem lloyd_fixed_point : forall (cs X : list (list R)) (d j : nat) (c' : list R),
+  X <> [] -> Forall (fun x => length x = d) X -> Forall (fun c => length c = d) cs ->
+  step R_ops L2 cs X = cs -> (j < length cs)%nat -> length c' = d ->
+  fixed_assign_cost cs cs X = cost R_ops L2 cs X /\
+  cost R_ops L2 cs X <= fixed_assign_cost cs (upd cs j (fun _ => c')) X.
+Proof.
+  intros cs X d j c' H1 H2 H3 H4 H5 H6.
+  assert (Hne : cs <> []) by (intros E; rewrite E in H5; inversion H5).
+  split; [exact (fac_self cs X Hne)|]. rewrite <- (fac_self cs X Hne).
+  exact (fixed_point_single_move cs X d j c' H1 H2 H3 H4 H5 H6).
+Qed.
+
+(** the hypotheses are satisfiable: data 1, 3, 9 with centroids 2, 9 is a fixed point, and it stays
+    one when a far centroid 100 with an empty cluster is added *)
+Example lloyd_fixed_point_instance :
+  step R_ops L2 [[2]; [9]] [[1]; [3]; [9]] = [[2]; [9]] /\
+  step R_ops L2 [[2]; [9]; [100]] [[1]; [3]; [9]] = [[2]; [9]; [100]].
+Proof. exact (conj ex_fixed ex_fixed_empty_cluster). Qed.
+
+(** the inertia `fit` reports is the k-means cost of the centroids it returns divided by the number of
+    observations (over the reals ndarray's 8-lane unrolled `sum()` is the plain sum; `cost` is the
+    sequential sum of the distances to the closest centroid), for every metric *)
+Theorem inertia_is_mean_cost : forall (m : metric) (tol : R) (fuel k : nat)
+    (inits : list (list (list R))) (X : list (list R)) (f : fitted),
+  fit R_ops m tol fuel k inits X = Some f ->
+  f_inertia f = cost R_ops m (f_centroids f) X / INR (length X).
+Proof. exact inertia_mean_cost_R. Qed.
